@@ -23,6 +23,7 @@ OBLIGATIONS = [
     (P + "parseTpl_param", "lit{n}rest parses to parts [lit, …] index n"),
     (P + "parseTpl_errors", "{} => emptyIndex, {0} => zeroIndex, unclosed/stray braces => errors, for all surrounding text without braces"),
     (P + "writeTpl_parse_roundtrip", "instantiating a parsed template substitutes exactly the parameters: parse(a{1}b{2}c) applied to [x,y] = a x b y c, for all brace-free a b c and all x y"),
+    (P + "parseTpl_keyword_roundtrip", "a{key}b parses to a keyword placeholder; instantiation inserts the call's keyword parameter, else the set_value helper, else nothing"),
     (P + "mapper_dispatch_consistent", "Consistent cfg => route (map key params) reaches the handler of key with exactly params, any depth"),
 ]
 
@@ -591,7 +592,7 @@ def main():
                       "request method, and the arguments of mount_point::match(char const*…) / applications_pool, are C strings by type",
                       "url_dispatcher::map()'s typed parameter parsing (parse_url_parameter, encoding validation) is represented by a generic handler that declines on a configured group value",
                       "legacy asynchronous applications (second list scanned by applications_pool) are not modelled"]
-    scale = 8 if c.tier == "thorough" else 1
+    scale = 40 if c.tier == "thorough" else 1
 
     c.translate("c20.py")
     proved = c.prove(["Cppcms.C20.Props"], OBLIGATIONS, exe="c20_model")
@@ -606,6 +607,9 @@ def main():
     if c.replay_path:
         rp = json.load(open(c.replay_path))
         cases = [rp["case"]] if "case" in rp else []
+        if cases and rp.get("expect"):
+            b = cases[0][:cases[0].rindex("|") + 1]
+            expect[b] = (rp["expect"][0], [bytes.fromhex(x).decode("latin-1") for x in rp["expect"][1]], rp["expect"][2])
         corpus = []
     else:
         cases, expect = gen_cases(c, scale)
@@ -663,7 +667,7 @@ def main():
         # judge: the specification (Spec.lean) evaluated on the same raw engine answers must agree with what the
         # implementation did (D, MP, P, R); for R additionally: the handler registered for the key ran with exactly the parameters
         jidx = [k for k, cs in enumerate(full) if cs.split()[0] in ("D", "MP", "P", "R") and k < len(out_i)]
-        rcj, jout, jerr = c.run_lines(model, ["J " + full[k] + " # " + out_i[k] for k in jidx])
+        rcj, jout, jerr = c.run_lines(model, ["J " + full[k] + " # " + out_i[k] for k in jidx]) if jidx else (0, [], "")
         bad = []
         for k, o in zip(jidx, jout):
             if o != "1":
@@ -677,7 +681,7 @@ def main():
         for k in ridx:
             hid, params, kind = exp_full[full[k]]
             rlines.append("JR %d %s %d %s %s # %s" % (hid, "rh" if kind == "rh" else "plain", len(params), " ".join(hx(x) for x in params), full[k], out_i[k]))
-        rcr, rout, rerr = c.run_lines(model, rlines)
+        rcr, rout, rerr = c.run_lines(model, rlines) if rlines else (0, [], "")
         if rcr != 0 or len(rout) != len(ridx):
             c.broke("judge run (Consistent)", rerr)
         ncons = 0
@@ -694,8 +698,12 @@ def main():
         bad.sort(key=lambda t: (t[0] >= len(corpus), len(full[t[0]])))   # corpus witnesses first, then the shortest
         for k, why in bad[:20]:
             src = corpus[k][0] if k < len(corpus) else "generated"
-            c.violation(why, {"case": full[k], "source": src, "impl_output": out_i[k], "model_output": out_m[k] if k < len(out_m) else None,
-                              "replay_cmd": "bin/check C20 --replay <this file>"})
+            v = {"case": full[k], "source": src, "impl_output": out_i[k], "model_output": out_m[k] if k < len(out_m) else None,
+                 "replay_cmd": "bin/check C20 --replay <this file>"}
+            if full[k] in exp_full:
+                e = exp_full[full[k]]
+                v["expect"] = [e[0], [x.encode("latin-1").hex() for x in e[1]], e[2]]
+            c.violation(why, v)
         if diffs and not bad and not crashed:
             k, cs, a, b = diffs[0]
             c.broke("correspondence stream routing", f"{len(diffs)} differing cases; first: {cs[:1500]} impl={a} model={b}")
